@@ -16,6 +16,9 @@ statechart:
     initial: a
     states:
       - name: a
+        # a watchdog the statechart sends itself: it stays pending (the clock of the runs is frozen)
+        # and must neither be consumed nor get in the way of the external events
+        on entry: send('watchdog', delay=100000)
         transitions: [{event: e, target: b}, {event: stop, target: f}]
       - name: b
         transitions: [{event: e, target: a}, {event: stop, target: f}]
